@@ -18,6 +18,18 @@ CHECKS = {
              text="Ground obligation C08_generated : dotnet_ok mm files = true (vm_compute) over the fresh plugin output, exhaustive over all structures / flattened properties / enumerations / 95 methods / ~655 files, read through the proved generic soundness theorem dotnet_ok_spec (for every metamodel and file list): member per flattened property with exact wire name, mapped type, nullable/Ignore rules, constructor assignment, enum values, method strings, request/response pairing, directions.",
              note="Trusted: Coq kernel+VM; translators x_mm, x_cs (tokeniser, fail-closed); specification choices in Dotnet.v (cs_of, collections exemption, _-prefix skip rule, DataContract requirement, LSPMethods reading for notification methods); Newtonsoft/DataContract attribute semantics as documented; no C# compiler run. Axioms: none.",
              ref="6/C08"),
+ "C07": dict(cat="proof", tech="Coq: kernel-evaluated checker rust_ok over lib.rs (fresh plugin output AND committed file) tokenised by x_rs, with proved soundness theorem rust_ok_spec; independent regex search must agree",
+             text="Ground obligations rust_ok mm items = true (vm_compute, exhaustive over all structs/fields/enums/variants/aliases/method-enum variants) for the rust plugin's fresh output and for the committed lib.rs; meaning given by the proved generic theorem rust_ok_spec (serde names = flattened names, type = rs_of, Option iff optional or null-admitting, enum discriminants, untagged or-aliases, method renames, proposed gating).",
+             note="Trusted: Coq kernel+VM; translators x_mm, x_rs (tokeniser/parser, fail-closed; raw and rustfmt'ed output must parse to the same items); specification choices in Rust.v (rs_of, serde naming rule); serde/rustc not modelled, crate compilation outside the claim. Axioms: none.",
+             ref="6/C07"),
+ "C09": dict(cat="proof", tech="Coq: kernel-evaluated catalogue checker W_cat over tables regenerated from lsp.json and the live module objects, with proved reflection lemmas (CatThy)",
+             text="Ground theorem W_cat = true (vm_compute, exhaustive over the 95 methods x {row, message class, response class, params, registration options, direction, constant}, converse inclusions, registry completeness, no unresolved forward reference); meaning via proved reflection lemmas C09_requests / C09_notifications / C09_nothing_else / C09_registry_complete.",
+             note="Trusted: Coq kernel+VM; translators x_mm, x_pkg (reads the dict objects a user gets); the semantic characterisation of message classes in CatSpec.v is the pinned reading. Search: s_catalogue.py on the real module. Axioms: none.",
+             ref="6/C09"),
+ "C11": dict(cat="proof", tech="Coq: generic rejection theorems about the converter model (all tables, callbacks, fuels, surrounding objects) instantiated via a kernel-evaluated eligibility table; model/real correspondence and exhaustive search on the four edits",
+             text="Four theorems (missing required property, int out of range, closed-enum outside value, literal mismatch): for every structure, every eligible property, EVERY object carrying the edit, every fuel and every str() oracle, structuring does not return an object. The eligibility table (each eligible property has the field shape the generic theorem needs) is re-proved by vm_compute against the current metamodel and package.",
+             note="Trusted: Coq kernel+VM; translators x_mm, x_pkg; the hand-written converter model LSP.Sem (cattrs/attrs/enum semantics), validated by the correspondence stream (every edited input: model and real converter agree) — not verified. Axioms: none.",
+             ref="6/C11"),
 }
 ALL = ["C%02d" % i for i in range(1, 21)]
 def main():
